@@ -5,6 +5,7 @@ Exit codes of ./check: 0 property held on everything explored (known findings ar
 2 machinery problem (build failure, nondeterminism, vacuity) - never a verdict.
 """
 import fcntl
+import fnmatch
 import hashlib
 import json
 import os
@@ -138,6 +139,91 @@ def run_engine(cmd, timeout=3600, env=None):
         raise MachineryError('unparseable engine output from %s: %s' % (cmd[0], ex))
 
 
+def run_engine_parts(cmd, parts=None, timeout=3600):
+    """Run a sharded rqmc sweep as `parts` single-threaded processes (RQMC_PART=k/N) and merge their
+    JSON documents: processes instead of threads because many allocating threads in one process
+    contend in the allocator (measured 20x slower)."""
+    parts = parts or NCPU
+    procs = []
+    for k in range(parts):
+        e = dict(os.environ)
+        e.pop('RUST_BACKTRACE', None)
+        e['RQMC_THREADS'] = '1'
+        e['RQMC_PART'] = '%d/%d' % (k, parts)
+        procs.append(subprocess.Popen(cmd, stdout=subprocess.PIPE, stderr=subprocess.PIPE, env=e))
+    docs = []
+    t_end = time.time() + timeout
+    for p in procs:
+        try:
+            out, err = p.communicate(timeout=max(1, t_end - time.time()))
+        except subprocess.TimeoutExpired:
+            for q in procs:
+                q.kill()
+            raise MachineryError('%s timed out' % ' '.join(cmd[:3]))
+        if p.returncode != 0:
+            for q in procs:
+                q.kill()
+            raise MachineryError('%s exited %d: %s' % (' '.join(cmd[:3]), p.returncode, err.decode(errors='replace')[-2000:]))
+        try:
+            docs.append(json.loads(out.decode()))
+        except Exception as ex:
+            raise MachineryError('unparseable engine output from %s: %s' % (cmd[0], ex))
+    return merge_docs(docs)
+
+
+def run_engine_lines(cmd, timeout=3600):
+    """Run an engine that prints one JSON document per line, each with a 'report' (C11 parent: one line per
+    finished chunk of a shard subprocess, plus a final line with what the parent itself observed)."""
+    e = dict(os.environ)
+    e.pop('RUST_BACKTRACE', None)
+    e['RQMC_SCRATCH'] = scratch()
+    p = subprocess.run(cmd, stdout=subprocess.PIPE, stderr=subprocess.PIPE, timeout=timeout, env=e)
+    if p.returncode != 0:
+        raise MachineryError('%s exited %d: %s' % (' '.join(cmd[:3]), p.returncode, p.stderr.decode(errors='replace')[-2000:]))
+    docs, final = [], None
+    for line in p.stdout.decode().splitlines():
+        d = json.loads(line)
+        docs.append(d['report'])
+        if d.get('final'):
+            final = d
+    if final is None:
+        raise MachineryError('engine did not finish: ' + ' '.join(cmd[:3]))
+    out = merge_docs(docs)
+    for k, v in final.items():
+        if k != 'report':
+            out[k] = v
+    return out
+
+
+def merge_docs(docs):
+    out = dict(docs[0])
+    out['counters'] = {}
+    out['samples'] = []
+    classes = {}
+    summed = ('evaluations', 'distinct_nontrivial', 'states', 'transitions')
+    for k in summed:
+        if k in out:
+            out[k] = 0
+    out['capped'] = False
+    out['wall_s'] = 0
+    for d in docs:
+        for k in summed:
+            if k in out:
+                out[k] += d.get(k, 0)
+        out['capped'] = out['capped'] or d.get('capped', False)
+        out['wall_s'] = max(out['wall_s'], d.get('wall_s', 0))
+        for k, v in d.get('counters', {}).items():
+            out['counters'][k] = out['counters'].get(k, 0) + v
+        out['samples'] += d.get('samples', [])[:2]
+        for c in d.get('violation_classes', []):
+            e = classes.setdefault((c['class'], c['mode']), {'class': c['class'], 'mode': c['mode'], 'count': 0, 'witnesses': []})
+            e['count'] += c['count']
+            e['witnesses'] = (e['witnesses'] + c['witnesses'])[:3]
+    out['samples'] = out['samples'][:8]
+    out['violation_classes'] = [classes[k] for k in sorted(classes)]
+    return out
+
+
 def merge_engine(res, doc, keys=('evaluations', 'distinct_nontrivial', 'states', 'transitions')):
     """Fold an engine JSON document into a Result (sums counts, collects samples and violation classes)."""
     cov = res.coverage
@@ -169,7 +255,8 @@ def finish(prop, tier, seed, res, wall_s):
     for c in res.classes:
         hit = None
         for k in known:
-            if k['class'] == c['class'] and (k.get('mode') in (None, '*') or k['mode'] == c['mode']):
+            # a class is a '+'-joined set of structural tags; an entry matches if its class is one of them
+            if k['class'] in c['class'].split('+') and fnmatch.fnmatchcase(c['mode'], k.get('mode') or '*'):
                 hit = k
                 break
         if hit:
